@@ -264,12 +264,13 @@ type Op struct {
 	S  int    `json:"s,omitempty"`  // amount class
 	By int    `json:"by,omitempty"` // 0 = the miner's current account, 1 = another account
 	P  int    `json:"p,omitempty"`  // apply: 1 = the stake is paid by the other of a1/a2
+	KV int    `json:"kv,omitempty"` // apply: 1 = a second public key / vrf key for the same id
 }
 
 func (o Op) String() string {
 	switch o.K {
 	case "apply":
-		return fmt.Sprintf("apply(m%d,%s,%s,%s%s)", o.M+1, acctName(o.A), []string{"validator", "proposer"}[o.T], []string{"min-1", "min", "2min"}[o.S], []string{"", ",paid by the other account"}[o.P])
+		return fmt.Sprintf("apply(m%d,%s,%s,%s%s)", o.M+1, acctName(o.A), []string{"validator", "proposer"}[o.T], []string{"min-1", "min", "2min"}[o.S], []string{"", ",paid by the other account"}[o.P]+[]string{"", ",other keys"}[o.KV])
 	case "add":
 		return fmt.Sprintf("add(m%d,%s,%s)", o.M+1, []string{"0", "1", "balance+1", "min"}[o.S], []string{"owner", "stranger"}[o.By])
 	case "refund":
@@ -309,10 +310,18 @@ func alphabet(thorough bool) []Op {
 		for a := 0; a < 2; a++ {
 			for t := 1; t >= 0; t-- {
 				for s := 0; s < 3; s++ {
+					if s == 0 && a == 1 && !thorough {
+						continue // below the minimum: quick tries it with a1 only
+					}
 					ops = append(ops, Op{K: "apply", M: m, A: a, T: t, S: s})
 				}
 			}
 		}
+	}
+	// the same ids with a different public key / vrf key (and, against a record of a1 or c1,
+	// a different account): a rejected one carries data that differs from the registered record
+	for m := 0; m < 2; m++ {
+		ops = append(ops, Op{K: "apply", M: m, A: 1, T: 0, S: 1, KV: 1})
 	}
 	// account class "contract": the controlling (and paying) account carries code
 	for m := 0; m < 2; m++ {
@@ -400,7 +409,7 @@ func resolve(o Op, m *refminers.Model) refminers.Tx {
 		typ := byte(o.T)
 		min := rules.MinStake[typ]
 		return refminers.Tx{Kind: "apply", Source: payer(o), Account: acctHex[o.A], ID: id, Type: typ,
-			Amount: []uint64{min - 1, min, 2 * min}[o.S], PK: "aa" + id[:8], VRF: "bb" + id[:8]}
+			Amount: []uint64{min - 1, min, 2 * min}[o.S], PK: []string{"aa", "ab"}[o.KV] + id[:8], VRF: []string{"bb", "bc"}[o.KV] + id[:8]}
 	case "add":
 		src := actor(m, id, o.By)
 		var amt uint64
@@ -487,7 +496,26 @@ type world struct {
 	idx     int
 }
 
+// primePK makes the id -> public key side index (a process-wide LevelDB that outlives the
+// histories) start every history from the same content for the harness ids: it is written
+// through the production path MinerManager.InsertMiner on a scratch state that is reverted.
+var primeDB *account.AccountDB
+
+func primePK() {
+	if primeDB == nil {
+		primeDB = node.LatestState()
+	}
+	for _, id := range minerIDs {
+		snap := primeDB.Snapshot()
+		if service.MinerManagerImpl.InsertMiner(&types.Miner{Id: unhx(id), PublicKey: []byte{0}, VrfPublicKey: []byte{0}, Type: common.MinerTypeValidator}, primeDB) != 1 {
+			harnessFail("cannot prime the public key index")
+		}
+		primeDB.RevertToSnapshot(snap)
+	}
+}
+
 func newWorld() *world {
+	primePK()
 	w := &world{db: node.LatestState()}
 	for _, a := range acctHex {
 		w.db.SetBalance(addrOf(a), initBal[a])
@@ -784,6 +812,11 @@ func stateKey(d map[string]string, m *refminers.Model) string {
 		}
 		lines = append(lines, k+"="+v)
 	}
+	for id, v := range readPK() {
+		if m.Miners[id] != nil {
+			lines = append(lines, "pkindex:"+id+"="+v)
+		}
+	}
 	sort.Strings(lines)
 	return strings.Join(lines, "\n") + "\n--model--\n" + m.Canon()
 }
@@ -861,6 +894,23 @@ func oracle(w *world, m *refminers.Model, oc oracleCtx) []finding {
 			if g.PK != want.PK || g.VRF != want.VRF {
 				add(true, "C20:lookup-by-id:keys", "id …%s: keys %s/%s, expected %s/%s", tail(id), g.PK, g.VRF, want.PK, want.VRF)
 			}
+		}
+	}
+
+	// 1b. the id -> public key side index agrees with the record of every registered miner
+	// (entries of ids without a record are leftovers and not judged)
+	for _, id := range allIDs {
+		want := m.Miners[id]
+		if want == nil {
+			continue
+		}
+		v, err := mm.GetPubkey(unhx(id))
+		if err != nil || hx(v) != want.PK {
+			k := kindName(oc.lastKind)
+			if k == "" {
+				k = "block"
+			}
+			add(true, "C20:lookup-disagree:pkindex:"+k, "id …%s: GetPubkey returns %q (err %v), the record holds public key %s", tail(id), hx(v), err, want.PK)
 		}
 	}
 
@@ -1279,6 +1329,10 @@ func runNode(hist []Op, open int, pre, preSeal map[string]string) nodeResult {
 		tx := buildTx(t, seq)
 		r := m.Exec(t)
 		m.EndBlock()
+		var pkBefore map[string]string
+		if last {
+			pkBefore = readPK()
+		}
 		_, acc := w.realBlock(next, []*types.Transaction{tx})
 		blocks = append(blocks, blockRec{next, []*types.Transaction{tx}})
 		next += cfg.Step
@@ -1297,6 +1351,7 @@ func runNode(hist []Op, open int, pre, preSeal map[string]string) nodeResult {
 		res.dump = w.dump()
 		if acc[0] == r.Accepted {
 			fs = rejectedCheck(fs, preSeal, res.dump, t, r, blocks[len(blocks)-1].h)
+			fs = sideIndexCheck(fs, pkBefore, t, r)
 		}
 		addF(fs, "after the block")
 	}
@@ -1328,6 +1383,10 @@ func runNode(hist []Op, open int, pre, preSeal map[string]string) nodeResult {
 		tx := buildTx(t, seq)
 		txs = append(txs, tx)
 		r := m.Exec(t)
+		var pkBefore map[string]string
+		if last {
+			pkBefore = readPK()
+		}
 		acc := w.stepTx(tx)
 		if !last {
 			if acc != r.Accepted {
@@ -1344,6 +1403,7 @@ func runNode(hist []Op, open int, pre, preSeal map[string]string) nodeResult {
 		res.dump = w.dump()
 		if acc == r.Accepted {
 			fs = rejectedCheck(fs, pre, res.dump, t, r, 0)
+			fs = sideIndexCheck(fs, pkBefore, t, r)
 		}
 		addF(fs, "inside the block, after its last transaction")
 	}
@@ -1411,6 +1471,45 @@ func rejectedCheck(fs []finding, before, after map[string]string, t refminers.Tx
 			continue
 		}
 		out = append(out, f)
+	}
+	return out
+}
+
+// readPK reads the id -> public key side index (a LevelDB outside the account state)
+// through the production accessor for every known id.
+func readPK() map[string]string {
+	out := map[string]string{}
+	for _, id := range allIDs {
+		v, err := service.MinerManagerImpl.GetPubkey(unhx(id))
+		if err == nil {
+			out[id] = hx(v)
+		}
+	}
+	return out
+}
+
+// sideIndexCheck: a rejected transaction (or one that adds nothing) must leave the side
+// index as it was; the resulting disagreement with the record is its consequence.
+func sideIndexCheck(fs []finding, before map[string]string, t refminers.Tx, r refminers.Result) []finding {
+	if before == nil || (r.Accepted && r.Reason != "ok-zero") {
+		return fs
+	}
+	after := readPK()
+	var diffs []string
+	for _, id := range allIDs {
+		if before[id] != after[id] {
+			diffs = append(diffs, fmt.Sprintf("public key index of id …%s: %q -> %q", tail(id), before[id], after[id]))
+		}
+	}
+	if len(diffs) == 0 {
+		return fs
+	}
+	out := []finding{{Sig: "C20:rejected-changed-side-index:" + kindName(t.Kind), Diverged: true,
+		Msg: "a transaction rejected for " + r.Reason + " changed: " + strings.Join(diffs, "; ")}}
+	for _, f := range fs {
+		if !strings.HasPrefix(f.Sig, "C20:lookup-disagree:pkindex") {
+			out = append(out, f)
+		}
 	}
 	return out
 }
@@ -1515,6 +1614,9 @@ func reducedAlphabet(thorough bool) []Op {
 			for s := 1; s < 3; s++ {
 				ops = append(ops, Op{K: "apply", M: m, A: a, T: 0, S: s})
 			}
+		}
+		if m == 0 && thorough {
+			ops = append(ops, Op{K: "apply", M: m, A: 1, T: 0, S: 1, KV: 1})
 		}
 		if thorough {
 			// the contract account c1 at the minimum (quick has it in the full alphabet only)
@@ -1940,7 +2042,7 @@ func main() {
 		Rule: "BFS over histories of miner transactions (apply/add/refund/change-account/release over 2 miner ids x 3 plain accounts + 1 account with code, " +
 			"each history in two packings: one transaction per block, or the last k transactions in one block; additionally a small alphabet under two configurations in which refund due heights collide, " +
 			"and all sequences of <= 3 separate RefundManager.Add calls over 2 due heights x 2 accounts x 3 values followed by CheckAndMove); a state is the canonical dump of " +
-			"the registry storage (cached slots + committed trie of both registry accounts), escrow records and fee-free balances plus the model state; " +
+			"the registry storage (cached slots + committed trie of both registry accounts), the id->public-key side index (pkCache, read through GetPubkey) of the registered ids, escrow records and fee-free balances plus the model state; " +
 			"counted as non-trivial: distinct states that hold at least one harness-created miner record or a scheduled refund " +
 			"(the `states` counter is per worker, distinct_nontrivial is de-duplicated across workers)",
 		Assumptions: []string{
